@@ -22,6 +22,7 @@ FUNCTIONS = ['msdm.algorithms.tdlearning.epsilon_softmax_sample', 'msdm.algorith
              'msdm.algorithms.tdlearning.ExpectedSARSA._training', 'msdm.algorithms.tdlearning.DoubleQLearning._training',
              'msdm.core.utils.dictutils.defaultdict2.__getitem__']
 ASSUMPTIONS = [
+    'tier U (step contracts of QLearning/SARSA/ExpectedSARSA._training): both loops cut, the loop head state is havocked (any table content, any current state; SARSA: any available pending action); the Q-table is a total z3 array (rows of the real defaultdict2 materialise on first access; `s in q` is taken as true); epsilon_softmax_sample / epsilon_softmax_dist are replaced by their contracts (tier B: returns a key of the row it is given / a distribution determined by that row and the exploration parameters); builtin max over a row and the expectation sum are uninterpreted functions of (table, state) -- the clause pins WHICH table version and WHICH state they are applied to and, for the expectation, the summand of an arbitrary action; _initial_q_table is stubbed (its contract is decided in tier B); double Q-learning is not in tier U',
     'demonic generator: every experienced history of the bounded runs (episodes <= 2, <= 40 generator draws per run) is explored; per-step obligations '
     'are checked at every timestep through the event listener, so they also hold on the explored prefix of histories cut by the draw budget',
     'tier B: episodic MDP skeletons (state-dependent action sets, stochastic transitions, a self-loop); rewards and initial Q symbolic (all values); '
@@ -520,7 +521,7 @@ MANIFEST_ENTRY = dict(
           'every experienced step is checked to be a real transition, and the table after the step is proved equal to the published rule '
           '(Q-learning, SARSA, expected SARSA, double Q) applied to the table before it with every other entry unchanged; interval invariant; '
           'returned table = last table (mean for double Q); returned policy. All histories of bounded runs under a demonic generator.'),
-    note='Bounded runs (episodes<=2, draw budget), skeletons, generic rational step size/discount/epsilon incl. 0 and 1 (tier B); exp uninterpreted; sampling law not decided.',
+    note='Bounded runs (episodes<=2, draw budget), skeletons, generic rational step size/discount/epsilon incl. 0 and 1 (tier B); exp uninterpreted; sampling law not decided. Tier U: one arbitrary timestep of Q-learning / SARSA / expected SARSA over an abstract table and model (rule applied, frame, continuation), by induction the whole run.',
 )
 END_MANIFEST_ENTRY = True
 
